@@ -754,11 +754,20 @@ func (st *State) globalRef(g *ssa.Global) Term {
 // ---------------------------------------------------------------------------------------------
 // slice elements
 
+// elemKeys lists the element-array keys (with sort and Go type) that make up one slice element of type elem.
+// Struct elements get one array per field; a slice-typed field (or a slice element) takes four (arr, off, len, cap).
 func (st *State) elemKeys(elem types.Type) (keys []string, sorts []string, typs []types.Type) {
 	if su, ok := under(elem).(*types.Struct); ok && !isTypeParam(elem) {
 		sn := structName(elem)
 		for i := 0; i < su.NumFields(); i++ {
 			f := su.Field(i)
+			if _, isSlice := under(f.Type()).(*types.Slice); isSlice {
+				base := "elem:" + sn + "." + f.Name()
+				keys = append(keys, base+"#arr", base+"#off", base+"#len", base+"#cap")
+				sorts = append(sorts, sRef, sBV(64), sBV(64), sBV(64))
+				typs = append(typs, nil, nil, nil, nil)
+				continue
+			}
 			s, ok := st.x.sortOf(f.Type())
 			if !ok {
 				panic(unsupported{"slice element field " + sn + "." + f.Name() + " of type " + f.Type().String()})
@@ -770,7 +779,6 @@ func (st *State) elemKeys(elem types.Type) (keys []string, sorts []string, typs 
 		return
 	}
 	if sl, ok := under(elem).(*types.Slice); ok {
-		// slice of slices: element is four scalars
 		_ = sl
 		base := "elem:slice_" + sanitize(elem.String())
 		return []string{base + "#arr", base + "#off", base + "#len", base + "#cap"}, []string{sRef, sBV(64), sBV(64), sBV(64)}, []types.Type{nil, nil, nil, nil}
@@ -782,6 +790,19 @@ func (st *State) elemKeys(elem types.Type) (keys []string, sorts []string, typs 
 	return []string{"elem:" + sanitize(s)}, []string{s}, []types.Type{elem}
 }
 
+// elemFieldKeyIndex returns the index into elemKeys of the first key of struct field f.
+func elemFieldKeyIndex(su *types.Struct, f int) int {
+	idx := 0
+	for i := 0; i < f; i++ {
+		if _, isSlice := under(su.Field(i).Type()).(*types.Slice); isSlice {
+			idx += 4
+		} else {
+			idx++
+		}
+	}
+	return idx
+}
+
 func (st *State) elemArr(h *heapSnap, key, elSort string) Term {
 	return st.snapArr(h, key, sArr(sBV(64), elSort))
 }
@@ -790,10 +811,20 @@ func (st *State) loadElem(h *heapSnap, arr, idx Term, elem types.Type) Val {
 	keys, sorts, typs := st.elemKeys(elem)
 	if su, ok := under(elem).(*types.Struct); ok && !isTypeParam(elem) {
 		sv := &StructV{T: su, Named: elem, F: make([]Val, su.NumFields())}
-		for i := range keys {
+		g := func(i int) Term {
 			t := tSelect(tSelect(st.elemArr(h, keys[i], sorts[i]), arr), idx)
 			t.Typ = typs[i]
-			sv.F[i] = t
+			return t
+		}
+		for f := 0; f < su.NumFields(); f++ {
+			k := elemFieldKeyIndex(su, f)
+			if sl, isSlice := under(su.Field(f).Type()).(*types.Slice); isSlice {
+				fs := &SliceV{Arr: g(k), Off: g(k + 1), Len: g(k + 2), Cap: g(k + 3), Elem: sl.Elem()}
+				st.assumeSliceInv(fs)
+				sv.F[f] = fs
+			} else {
+				sv.F[f] = g(k)
+			}
 		}
 		return sv
 	}
@@ -818,10 +849,19 @@ func (st *State) storeElem(arr, idx Term, elem types.Type, v Val) {
 		st.emit("(define-fun " + name + " () " + a.Sort + " " + tStore(a, arr, inner).S + ")")
 		st.heap[keys[i]] = Term{S: name, Sort: a.Sort}
 	}
-	if _, ok := under(elem).(*types.Struct); ok && !isTypeParam(elem) {
+	if su, ok := under(elem).(*types.Struct); ok && !isTypeParam(elem) {
 		sv := v.(*StructV)
-		for i := range keys {
-			put(i, st.asTerm(sv.F[i], nil))
+		for f := 0; f < su.NumFields(); f++ {
+			k := elemFieldKeyIndex(su, f)
+			if sl, isSlice := under(su.Field(f).Type()).(*types.Slice); isSlice {
+				fs := st.asSlice(sv.F[f], sl.Elem())
+				put(k, fs.Arr)
+				put(k+1, fs.Off)
+				put(k+2, fs.Len)
+				put(k+3, fs.Cap)
+			} else {
+				put(k, st.asTerm(sv.F[f], nil))
+			}
 		}
 		return
 	}
